@@ -1,2 +1,79 @@
-//! harnesses mounted into the crate (see DESIGN.md 3.1)
+//! C15: the lossy ring buffer in front of the policy. Child of `crate::ring`.
 #![allow(dead_code, unused_imports)]
+use super::*;
+use crate::policy::verif_harness::psync::{mk_policy, worker_try_recv};
+use crate::policy::verif_harness::{any_slfu, any_tinylfu};
+use crate::verif_env::{chan, mrec, pushrec, HS};
+use crate::verif_nd::{self as nd, harness, vassert, vcover};
+
+#[cfg(kani)]
+use crate::verif_env::stubs;
+
+harness! {
+    [kani::unwind(8),
+     kani::stub(std::sync::Arc::drop_slow, stubs::arc_drop_slow),
+     kani::stub(parking_lot::RawMutex::lock_slow, stubs::mutex_lock_slow),
+     kani::stub(parking_lot::RawMutex::unlock_slow, stubs::mutex_unlock_slow),
+     kani::stub(crate::policy::LFUPolicy::push, pushrec::push)]
+    fn c15_ring_batches() {
+        // every buffer_items setting 0..3, up to 5 lookups of arbitrary keys, the policy answering
+        // kept / dropped / error arbitrarily for every flushed batch
+        let capa = nd::any_usize_in(0, 3);
+        let n = nd::any_usize_in(1, 5);
+        let keys = [nd::any_u64(), nd::any_u64(), nd::any_u64(), nd::any_u64(), nd::any_u64()];
+        let m = Arc::new(mrec::make(false));
+        let (s, _e) = any_slfu(0);
+        let (p, w) = mk_policy(any_tinylfu(1, 6), s, m);
+        let ring = RingStripe::new(Arc::new(p), capa);
+        #[cfg(kani)]
+        pushrec::reset();
+        let c = if capa == 0 { 1 } else { capa };
+        let mut i = 0;
+        while i < n {
+            ring.push(keys[i]);
+            let buffered = ring.data.lock().len();
+            vassert!(buffered < c, "after every lookup fewer than buffer_items keys stay buffered (a full batch is flushed at once)");
+            vassert!(buffered == (i + 1) % c, "a batch is handed over exactly when the buffer reaches buffer_items, whatever the policy answers");
+            i += 1;
+        }
+        // what was handed over, in order
+        #[cfg(kani)]
+        {
+            let handed = pushrec::flat_len();
+            vassert!(handed == (n / c) * c, "exactly the full batches were handed to the policy");
+            vassert!(pushrec::batches() == n / c, "one hand-over per full batch");
+            vassert!(pushrec::batches() == 0 || (pushrec::min_len() == c && pushrec::last_len() == c), "every batch holds exactly buffer_items keys (0 behaves like 1)");
+            let mut j = 0;
+            while j < handed {
+                vassert!(pushrec::flat(j) == keys[j], "every looked-up key appears exactly once, in order, in the handed-over batches");
+                j += 1;
+            }
+        }
+        #[cfg(not(kani))]
+        {
+            // natively the real push enqueued the batches on the (undrained) bounded(3) queue
+            let mut j = 0;
+            while let Some(b) = worker_try_recv(&w) {
+                for k in b {
+                    vassert!(k == keys[j], "every looked-up key appears exactly once, in order, in the handed-over batches");
+                    j += 1;
+                }
+            }
+        }
+        {
+            let d = ring.data.lock();
+            let handed = (n / c) * c;
+            let mut j = 0;
+            while j < d.len() {
+                vassert!(d[j] == keys[handed + j], "keys not yet handed over are still buffered, in order");
+                j += 1;
+            }
+        }
+        vcover!(capa == 0 && n == 5, "buffer_items 0");
+        vcover!(capa == 3 && n == 5, "buffer_items 3, one full batch and a partial one");
+        vcover!(capa == 2 && n == 4, "two full batches");
+        let _ = &w;
+        std::mem::forget(ring);
+        std::mem::forget(w);
+    }
+}
